@@ -563,3 +563,19 @@ func c20MaxPrecSlice() *h.Fail {
 	}
 	return nil
 }
+
+// FuzzSetBitsExp is the native coverage-guided leg of C20 (thorough tier): up to eight words (reduced below 10^19),
+// exponent, precision and mode from the fuzzer's arguments, same oracle as the generated "bits" cases.
+func FuzzSetBitsExp(f *testing.F) {
+	f.Add(uint64(1), uint64(0), uint64(0), uint64(0), int64(0), uint16(34), uint8(0), uint8(1))
+	f.Add(uint64(h.Base-1), uint64(h.Base-1), uint64(5000000000000000000), uint64(0), int64(2147483647), uint16(20), uint8(3), uint8(3))
+	f.Add(uint64(0), uint64(0), uint64(123), uint64(0), int64(-2147483648), uint16(0), uint8(2), uint8(4))
+	f.Add(uint64(4200055555555555555), uint64(0), uint64(0), uint64(1000000000000000000), int64(1)<<62, uint16(5), uint8(5), uint8(4))
+	f.Fuzz(func(t *testing.T, w0, w1, w2, w3 uint64, exp int64, prec uint16, mode uint8, n uint8) {
+		ws := []uint64{w0 % h.Base, w1 % h.Base, w2 % h.Base, w3 % h.Base, (w0 ^ w2) % h.Base, (w1 + w3) % h.Base, w0 / 7 % h.Base, w3 / 1000}
+		c := C20Case{Kind: "bits", W: ws[:int(n)%9%len(ws)+0], Exp: exp, P: uint(prec % 200), M: mode % 6}
+		if fail := propC20.SafeCheck(c, &h.Obs{}); fail != nil {
+			h.FuzzFail(t, "C20", fail, c)
+		}
+	})
+}
